@@ -377,6 +377,77 @@ func genFree(r *common.Rand, n int, emit func(string)) {
 	}
 }
 
+// ---- free-running contention over pre-existing markers in the three states {absent, live,
+// expired-not-yet-swept}: N in {2,4,8} allocators / generators are released behind a spin barrier onto
+// the same tiny candidate space of every real store kind.  Expired markers are written with a 1 ms
+// TTL and the case waits 3 ms (really, on the memory-backed stores, whose deletion is lazy).
+func genFreeStates(r *common.Rand, rounds int, emit func(string)) {
+	stores := []string{"mem", "hyb", "mem", "hyb", "red", "hyr", "dbl"}
+	for c := 0; c < rounds; c++ {
+		store := stores[c%len(stores)]
+		nt := []int{2, 4, 8}[c%3]
+		node := c%2 == 0
+		kind := nodeKind
+		if !node {
+			kind = r.Intn(4)
+		}
+		space := 1 + r.Intn(6)
+		if !node {
+			space = 4 + r.Intn(9)
+		}
+		var pre []preEnt
+		for i := 1; i <= space; i++ {
+			switch st := (c/6 + i) % 6; st { // state of candidate i: mostly expired, also live / absent
+			case 0:
+				pre = append(pre, preEnt{kind, candID(kind, uint64(i)), 0}) // live
+			case 1: // absent
+			default:
+				pre = append(pre, preEnt{kind, candID(kind, uint64(i)), 1}) // expired after the wait
+			}
+		}
+		var thr []thrSpec
+		for t := 0; t < nt; t++ {
+			inst := t
+			if !node && r.Intn(3) == 0 {
+				inst = 0
+			}
+			if node {
+				thr = append(thr, thrSpec{inst, []string{"g 9 0"}})
+				continue
+			}
+			// every thread walks the contended candidates in the same order; a loser falls back to a
+			// private id at once, so the threads stay in step and every candidate is a fresh race
+			var ops []string
+			for i := 1; i <= space; i++ {
+				ops = append(ops, genOp(kind, []uint64{uint64(i), uint64(1000 + 100*t + i)}))
+			}
+			thr = append(thr, thrSpec{inst, ops})
+		}
+		emit(mkCase(true, store, true, defTTL, pre, thr, [][2]int64{{1, 3}}))
+	}
+}
+
+// ---- release clause: an allocator that released its id is released again (deferred shutdown
+// clean-up) while other nodes claim; every schedule of length 6 over three nodes, every store kind.
+func genDoubleRelease(emit func(string)) {
+	stores := []string{"dbl", "mem", "hyb", "hyr", "red"}
+	progs := [][]thrSpec{
+		{{0, []string{"g 9 0", "o", "o"}}, {1, []string{"g 9 0"}}, {2, []string{"g 9 0"}}},
+		{{0, []string{"g 9 0", "o", "o", "g 9 0"}}, {1, []string{"g 9 0", "o", "o"}}, {2, []string{"g 9 0", "w"}}},
+	}
+	for pi, pr := range progs {
+		for m := 0; m < 729; m++ {
+			var sch [][2]int64
+			x := m
+			for j := 0; j < 6; j++ {
+				sch = append(sch, [2]int64{0, int64(x % 3)})
+				x /= 3
+			}
+			emit(mkCase(false, stores[(m+pi)%len(stores)], true, defTTL, nil, pr, sch))
+		}
+	}
+}
+
 // ---- E: node id allocation, renewal, release, lease expiry
 func genNode(r *common.Rand, n int, emit func(string)) {
 	lock := node.NodeIDLockTTL.Milliseconds()
@@ -503,11 +574,13 @@ func generate(r *common.Rand, tier string, emit func(string)) {
 	}
 	genExhaustive(emit)
 	genFaultExhaustive(emit)
+	genDoubleRelease(emit)
 	real := []string{"dbl", "dbl", "dbl", "mem", "hyb", "red", "hyr"}
 	genRandom(r.Fork(), 900*scale, emit, real, true, 4, false, "")
 	genExhaustion(r.Fork(), 16*scale, emit)
 	genFallback(r.Fork(), 150*scale, emit)
 	genFree(r.Fork(), 120*scale, emit)
+	genFreeStates(r.Fork(), 700*(1+scale/3), emit)
 	genNode(r.Fork(), 300*scale, emit)
 	genNodeExhaustion(emit)
 }
